@@ -42,11 +42,16 @@ def rewrite_configs(scs, limit=120):
         b = [x for x in lst if x['req']['proto'] == 'h2']
         lst = [x for pair in zip(a, b) for x in pair] + a[len(b):] + b[len(a):]
         lst = lst[:limit]
-        cfgs.append({'args': ['-enable-kubernetes-probe=%s' % str(probe).lower(), '-preserve-host=%s' % str(ph).lower()], 'forward_path': prefix,
-                     'via_env': gi % 2 == 1,       # every second configuration is given through the environment variables instead of the command line
-                     'requests': [{'proto': sc['req']['proto'], 'id': sc['id'], 'method': sc['req']['method'], 'path': sc['req']['path'], 'host': sc['req']['host'], 'ua': sc['req']['ua'],
-                                   'probeText': sc['req']['probeText'], 'lines': sc['req']['lines']} for sc in lst]})
-        index.append(lst)
+        # every configuration is given twice: on the command line and through the environment variables; the requests are shared out between the two
+        # (pairs stay together so that both protocols meet both)
+        for via_env in (False, True):
+            part = [x for j, x in enumerate(lst) if (j // 2) % 2 == int(via_env)]
+            if not part:
+                continue
+            cfgs.append({'args': ['-enable-kubernetes-probe=%s' % str(probe).lower(), '-preserve-host=%s' % str(ph).lower()], 'forward_path': prefix, 'via_env': via_env,
+                         'requests': [{'proto': sc['req']['proto'], 'id': sc['id'], 'method': sc['req']['method'], 'path': sc['req']['path'], 'host': sc['req']['host'], 'ua': sc['req']['ua'],
+                                       'probeText': sc['req']['probeText'], 'lines': sc['req']['lines']} for sc in part]})
+            index.append(part)
     return cfgs, index
 
 
